@@ -247,6 +247,10 @@ func c17History(t *testing.T, r *rand.Rand, w *CaseWriter, hi int, cal *c17Cal) 
 			plans = g.planRace()
 			w.Count("race_blocks")
 			nt = 0
+		} else if nt > 0 && b < nBlocks-3 && r.Intn(100) < 10 {
+			plans = g.planOrder()
+			w.Count("order_blocks")
+			nt = 0
 		}
 		for i := 0; i < nt; i++ {
 			var p *c17Plan
